@@ -100,7 +100,9 @@ func TestC10(t *testing.T) {
 		case 6:
 			c.Payload = L / 2
 		case 7:
-			c.Payload = L * 3 / 4
+			// (three quarters of L and a little more: where the base64 text of a message in a GET URL
+			// crosses L while the message itself does not)
+			c.Payload = L*3/4 + rapid.SampledFrom([]int{0, 8, L / 8, L / 6}).Draw(t, "above_three_quarters")
 		default:
 			// compression bomb: inflates far beyond L while the wire size stays small
 			c.Compressible = true
@@ -297,6 +299,10 @@ func checkC10(c *sizeCase) *CheckResult {
 	res.class("dir=%s path=%s rel=%s outcome=%s", c.Direction, path, relClass(c.Payload, L), cv.outcome())
 	res.Sample = map[string]any{"limit": L, "direction": c.Direction, "blob": c.Payload, "compressible": c.Compressible, "client": ct, "backend": bt,
 		"request_wire": reqWire, "request_plain": reqPlain, "outcome": cv.outcome(), "pool_max_cap": st.MaxCap, "allocated": alloc}
+	if sc.Client.Form == FormConnectGet && c.Direction == "request" && reqPlain*4/3 > L && reqPlain+16 <= L {
+		// the message fits, its base64 text in the URL would not: the limit is about the message
+		res.class("get_base64_window codec=%s compression=%s outcome=%s", sc.Client.Codec, sc.Client.Compression, cv.outcome())
+	}
 	if path == "passthrough" {
 		return res
 	}
@@ -438,10 +444,13 @@ func checkC10(c *sizeCase) *CheckResult {
 			sizes = append(sizes, maxLen(view.Payloads), maxInts(view.WireSizes))
 		}
 		for _, mb := range sc.Backend.Msgs {
+			if view == nil {
+				break // the backend was never invoked: nothing of its answer can have been measured
+			}
 			if out.Sent.MI != nil {
 				m := newMessage(out.Sent.MI.Out)
 				if proto.Unmarshal(mb, m) == nil {
-					for _, codec := range []string{CodecProto, CodecJSON} {
+					for _, codec := range []string{CodecProto, CodecJSON} { // (kept wide: cheap, responses of request cases are small)
 						if p, err := encodeMsg(codec, JSONStyle{EmitUnpopulated: true}, m); err == nil {
 							sizes = append(sizes, len(p))
 						}
@@ -449,12 +458,22 @@ func checkC10(c *sizeCase) *CheckResult {
 				}
 			}
 		}
-		// re-encodings the harness can compute: the message in both codecs
+		// re-encodings the harness can compute: the message in every codec that can be involved (the
+		// client's, the configured target codecs, JSON whenever a REST leg is possible)
+		involved := []string{sc.Client.Codec}
+		for _, cd := range sc.Config.Codecs {
+			if !contains(involved, cd) {
+				involved = append(involved, cd)
+			}
+		}
+		if (sc.Client.Form == FormREST || contains(sc.Config.Protocols, ProtoREST)) && !contains(involved, CodecJSON) {
+			involved = append(involved, CodecJSON)
+		}
 		for _, mb := range sc.Client.Msgs {
 			if out.Sent.MI != nil {
 				m := newMessage(out.Sent.MI.In)
 				if proto.Unmarshal(mb, m) == nil {
-					for _, codec := range []string{CodecProto, CodecJSON} {
+					for _, codec := range involved {
 						if p, err := encodeMsg(codec, JSONStyle{EmitUnpopulated: true}, m); err == nil {
 							sizes = append(sizes, len(p))
 						}
